@@ -38,3 +38,4 @@ import NetflowModel.Props.C13b
 import NetflowModel.Props.C01c
 import NetflowModel.Props.C16c
 import NetflowModel.Props.SerdeGen
+import NetflowModel.Props.NomGen
